@@ -202,9 +202,11 @@ def run_impl(c, base):
             job = {"cmd": "compile", "cwd": root, "file": os.path.join(root, o["file"]), "output": os.path.join(root, o["output"]), "stack_limit": o["stack_limit"], "comments": o["comments"]}
         else:
             job = {"cmd": "new", "cwd": root, "name": o["name"], "path": os.path.join(root, o["dir"]) if o["dir"] else root}
-        p = subprocess.run([sys.executable, "-c", RUNNER % {"repo": common.REPO}], input=json.dumps(job).encode(), stdout=subprocess.PIPE, stderr=subprocess.PIPE, env=env, timeout=180)
         try:
+            p = subprocess.run([sys.executable, "-c", RUNNER % {"repo": common.REPO}], input=json.dumps(job).encode(), stdout=subprocess.PIPE, stderr=subprocess.PIPE, env=env, timeout=120)
             res = json.loads(p.stdout.decode().strip().split("\n")[-1])
+        except subprocess.TimeoutExpired:
+            res = {"raised": "Timeout: the CLI invocation did not finish within 120 s"}
         except Exception:
             res = {"raised": "RunnerFailure: " + p.stderr.decode()[-300:]}
         reports.append(classify(o, res))
